@@ -576,6 +576,8 @@ func (e *Enforcer) BuildRoleLinks() error {
 	if e.rmMap == nil {
 		return errors.New("rmMap is nil")
 	}
+	// the compiled matchers memoise g() results of the links that are about to be replaced
+	e.invalidateMatcherMap()
 	for _, rm := range e.rmMap {
 		err := rm.Clear()
 		if err != nil {
